@@ -274,3 +274,49 @@ def classify_known(prop):
             return ("F10", known["F10"]["what"])
         return None
     return classify
+
+
+# ---------------- label sequences (Chains.tla) ----------------
+def chains_lines(drv, tier, every_quick=4, every_thorough=3, want_kmp=True):
+    """TLC enumerates the canonical closed label sequences; returns (kmp record lines, snap record lines, n sequences, tlc result)."""
+    cfg = "MC_Chains_quick.cfg" if tier == "quick" else "MC_Chains_thorough.cfg"
+    r = vlib.run_tlc("Chains", cfg, timeout=3600)
+    if not r.ok or len(r.vecs) < 1000:
+        raise Broken("Chains: %s (%d sequences)" % (r.violated or r.error, len(r.vecs)))
+    d = vlib.scratch("chains")
+    try:
+        inp = os.path.join(d, "v.ndjson")
+        with open(inp, "w") as fh:
+            fh.write("\n".join(json.dumps(x) for x in r.vecs) + "\n")
+        k, s_ = os.path.join(d, "k.ndjson"), os.path.join(d, "s.ndjson")
+        p = vlib.run([drv, "chain-replay", "-in", inp, "-kmp", k, "-snap", s_, "-seed", str(vlib.seed()),
+                      "-every", str(every_quick if tier == "quick" else every_thorough)], timeout=3600)
+        if p.returncode != 0:
+            raise Broken("chain-replay failed: " + p.stderr[-2000:])
+        kl = open(k).read().splitlines()
+        sl = open(s_).read().splitlines()
+    finally:
+        vlib.rm(d)
+    return kl, sl, len(r.vecs), r
+
+
+def f5_key_matches(drv, rec_lines):
+    """Known finding F5 is keyed by call site: kmpDeduplicate, applied to the routed boundary the specification computes for
+    the failing input, returns an adjacency its argument does not contain. Returns the witness or None."""
+    r = vlib.run_tlc("SnapTrace", "SnapTrace_chains.cfg", data={"snap_trace.ndjson": "\n".join(rec_lines) + "\n"}, workers=2, timeout=900)
+    if not r.ok:
+        raise Broken("cannot compute the routed boundary of the failing input: %s" % (r.violated or r.error))
+    inp = []
+    for v in r.vecs:
+        for lv in v["lv"]:
+            inp.append(json.dumps({"rings": lv["rings"]}))
+    if not inp:
+        return None
+    p = vlib.run([drv, "kmp-check"], input="\n".join(inp) + "\n", timeout=300)
+    if p.returncode != 0:
+        raise Broken("kmp-check failed: " + p.stderr[-1000:])
+    for ln in p.stdout.splitlines():
+        o = json.loads(ln)
+        if o.get("invented"):
+            return o["witness"]
+    return None
